@@ -31,6 +31,8 @@ type Exec struct {
 	eofErr, ueofErr *Iface
 	flagOverride    map[string]Value
 	snaps           []snapRec
+	extUsed         map[string]bool
+	stdInit         map[*ssa.Package]bool
 }
 
 type deferred struct {
@@ -62,6 +64,16 @@ func (x *Exec) global(g *ssa.Global) *Value {
 	if p, ok := x.globals[g]; ok {
 		return p
 	}
+	if g.Pkg != nil && !strings.HasPrefix(g.Pkg.Pkg.Path(), repoMod) && interpretedStd[g.Pkg.Pkg.Path()] && !x.stdInit[g.Pkg] {
+		// first touch of a global of an interpreted std package: run that package's variable initialisers
+		x.stdInit[g.Pkg] = true
+		if ini := g.Pkg.Func("init"); ini != nil && ini.Blocks != nil {
+			x.runStdInit(ini)
+		}
+		if p, ok := x.globals[g]; ok {
+			return p
+		}
+	}
 	cell := new(Value)
 	elem := g.Type().(*types.Pointer).Elem()
 	if v, ok := x.externGlobal(g); ok {
@@ -71,6 +83,14 @@ func (x *Exec) global(g *ssa.Global) *Value {
 	}
 	x.globals[g] = cell
 	return cell
+}
+
+// runStdInit interprets the synthetic init of an interpreted std package (calls to other packages' init are skipped).
+func (x *Exec) runStdInit(ini *ssa.Function) {
+	x.depth++
+	defer func() { x.depth-- }()
+	fr := &Frame{fn: ini, env: make(map[ssa.Value]Value, 16)}
+	x.run(fr)
 }
 
 func (x *Exec) constVal(c *ssa.Const) Value {
@@ -122,15 +142,19 @@ func (fr *Frame) get(x *Exec, v ssa.Value) Value {
 
 // callFunction runs an SSA function (or intrinsic when it has no body).
 func (x *Exec) callFunction(fn *ssa.Function, args []Value, env []Value) Value {
-	if fn.Blocks == nil {
-		if fn.Name() == "init" {
-			return nil // initialisers of packages outside the module are not executed (their state is modelled by intrinsics)
+	repoFn := fn.Pkg == nil || strings.HasPrefix(fn.Pkg.Pkg.Path(), repoMod)
+	if !repoFn || fn.Blocks == nil {
+		if fn.Name() == "init" && fn.Signature.Recv() == nil {
+			return nil // initialisers of packages outside the module run lazily (ensureInit) or are modelled by intrinsics
 		}
 		name := fn.String()
 		if in, ok := intrinsics[name]; ok {
 			return in(x, args)
 		}
-		x.engineErr("unmodelled external function %s", name)
+		if fn.Blocks == nil || !interpretedStd[fn.Pkg.Pkg.Path()] {
+			x.engineErr("unmodelled external function %s", name)
+		}
+		x.extUsed[name] = true
 	}
 	x.depth++
 	if x.depth > 400 {
